@@ -1,19 +1,37 @@
 from driver import Unit
 
-_FL = {"quick": ["O0-cc", "plain-cc", "asan-cc"], "thorough": ["O0-cc", "plain-cc", "asan-cc"]}
+# flavours: -O0, -O2 and -O1+ASan/UBSan (builtin-vs-fallback selection can differ per optimisation level)
+_FL3 = {"quick": ["O0-cc", "plain-cc", "asan-cc"], "thorough": ["O0-cc", "plain-cc", "asan-cc"]}
+# families with a single source path on gcc: quick tier skips the sanitizer build (run-time memory/UB behaviour of these
+# families is the subject of C02/C06/C14/C18), thorough runs all three
+_FL2 = {"quick": ["O0-cc", "plain-cc"], "thorough": ["O0-cc", "plain-cc", "asan-cc"]}
 _SH = {"quick": 2, "thorough": 2}
 
 _TYPES = [("f", "float"), ("d", "double"), ("ld", "long double")]
 
 
-def _fp_units():
+def _units():
     us = []
+    # rounding / classification part of <cmath>: 7 function groups x 3 floating types
     for tag, t in _TYPES:
         for g in range(7):
             defs = [f"-DC13_T={t}", f"-DC13_GRP={g}"]
             if t == "long double":
                 defs.append("-DC13_NO_NEXTAFTER=1")
-            us.append(Unit(f"C13_fp_{tag}_g{g}", "harness/C13_fp.cpp", defs=defs, flavours=_FL, shards=_SH))
+            us.append(Unit(f"C13_fp_{tag}_g{g}", "harness/C13_fp.cpp", defs=defs, flavours=_FL3, shards=_SH))
+    # bit / saturating / integer numeric utilities: 8-bit exhaustive (quick + thorough), 16/32/64-bit boundary tables
+    for w in (8, 64, 16, 32):
+        for g in range(5):
+            fl = _FL2 if w in (8, 64) else {"quick": [], "thorough": ["O0-cc", "plain-cc", "asan-cc"]}
+            us.append(Unit(f"C13_int_w{w}_g{g}", "harness/C13_int.cpp", defs=[f"-DC13_W={w}", f"-DC13_GRP={g}"], flavours=fl, shards=_SH))
+    us.append(Unit("C13_cctype", "harness/C13_int.cpp", defs=["-DC13_W=8", "-DC13_GRP=5"], flavours=_FL2, shards=_SH))
+    # cstring, charconv / strings::to_integer, chrono
+    for g in range(6):
+        us.append(Unit(f"C13_misc_g{g}", "harness/C13_misc.cpp", defs=[f"-DC13_GRP={g}"], flavours=_FL2, shards=_SH))
+    # scripted kernels: algorithms, containers, strings, views
+    for g in range(5):
+        us.append(Unit(f"C13_kern_g{g}", "harness/C13_kern.cpp", defs=[f"-DC13_GRP={g}", "-fconstexpr-ops-limit=1000000000"],
+                       flavours=_FL2, shards=_SH))
     return us
 
 
@@ -21,23 +39,37 @@ P = dict(
     registered=True,
     level="exploration",
     level_text=("Twin-table runtime monitoring: for every function family with an exactly specified result the compiler's constant evaluator "
-                "computes a constexpr result table over a fixed argument table (boundary table for floating point, all 8-bit inputs / boundary "
-                "tables for integers, strings and chrono, scripted kernels for containers and algorithms); the harness then calls the same "
-                "function at run time on volatile-laundered copies of the same arguments at -O0, -O2 and -O1+ASan/UBSan and compares bit for "
-                "bit. A SFINAE probe records arguments inside the documented domain for which constant evaluation fails. Held means: no "
-                "difference and no failed constant evaluation on the tables listed in the evidence (beyond the listed open findings); it is "
-                "not a proof for arguments outside the tables."),
-    level_note="trusts gcc 12's constant evaluator and code generator to implement the abstract machine; only gcc 12 is used as constant evaluator; default rounding mode",
-    technique="runtime monitoring of compile-time vs run-time twin tables (constexpr tables vs volatile-laundered run-time calls, -O0/-O2/ASan)",
+                "computes a constexpr result table over a fixed argument table (boundary tables for floating point: +-0, denormals, the "
+                "neighbourhood of epsilon, 0.5 and every half-way point class, 2^k and 2^k +- 1ulp around 2^23/2^31/2^52/2^63/2^64, +-inf, "
+                "+-NaN, limits; all 256 8-bit values and all 65536 8-bit pairs plus 16/32/64-bit boundary tables for the bit, saturating and "
+                "integer utilities; all unsigned-char values and EOF for <cctype>; all strings up to length 3 over {a, b, 0xE9} for the C-string "
+                "functions; value x base x buffer-size tables for to_chars, a 100-string x 5-base table for from_chars/to_integer; calendar "
+                "and tick boundary tables for chrono; scripted kernels over 40+ algorithms, static_vector, inplace_vector, array, span, "
+                "inplace_string, string_view, bitset, optional, pair/tuple, static_set). The harness then calls the same function at run "
+                "time on volatile-laundered copies of the same arguments at -O0, -O2 and (cmath always, the rest in the thorough tier) "
+                "-O1+ASan/UBSan and compares bit for bit (NaN == NaN unless the function is defined on the sign bit). A SFINAE probe "
+                "records arguments inside the documented domain for which constant evaluation fails. Held means: no difference and no "
+                "failed constant evaluation on the tables listed in the evidence (beyond the listed open findings); it is not a proof "
+                "for arguments outside the tables."),
+    level_note=("trusts gcc 12's constant evaluator and code generator to implement the abstract machine; gcc 12 is the only constant evaluator "
+                "used (clang is not run); default rounding mode; a call whose exact result raises overflow/underflow/invalid/divide-by-zero is "
+                "not required to be a constant expression (C++23 [library.c]/3) and is not reported when constant evaluation rejects it"),
+    technique="runtime monitoring of compile-time vs run-time twin tables (constexpr tables vs volatile-laundered run-time calls; -O0, -O2, ASan+UBSan)",
     design_ref="DESIGN.md section 4 C13, section 3.8",
-    rule=("one evaluation = one (function, argument tuple) of a table, inside the function's documented domain, evaluated at run time in one "
+    rule=("one evaluation = one (function, argument tuple) of a table, inside the function's documented domain, executed at run time in one "
           "flavour and compared with the compile-time cell (or reported as not constant-evaluable). distinct_nontrivial = distinct "
-          "(function<type>, argument bit pattern tuple); every table entry is non-trivial. Out-of-domain entries (e.g. lrint of NaN/inf or "
-          "of values whose rounded result does not fit) are skipped and not counted."),
-    exhaustive_note="true when all shards finished: every unit enumerates its complete finite argument table (the tables are the stated scope, not all values of the type)",
-    units=_fp_units(),
-    floor={"quick": 50000, "thorough": 50000},
+          "(function<type>, argument bit pattern tuple); every table entry is non-trivial. Out-of-domain entries (lrint of NaN/inf or of "
+          "values whose rounded result does not fit, bit_ceil above 2^(N-1), div_sat by 0, gcd/lcm of INT_MIN or with an unrepresentable "
+          "result, duration conversions whose specified intermediate overflows, kernel parameters outside the range) are skipped and "
+          "not counted."),
+    exhaustive_note=("true when all shards finished: every unit enumerates its complete finite argument table; the tables are exhaustive for "
+                     "8-bit operands (all values, all pairs for add_sat/div_sat), all unsigned char values for <cctype> and all strings of "
+                     "length <= 3 over a 3-letter alphabet; for wider integers, floating point, chrono and the kernels the table is the "
+                     "stated boundary scope, NOT all values of the type"),
+    units=_units(),
+    floor={"quick": 900000, "thorough": 1400000},
     assumptions=["gcc 12 constant evaluation and code generation are faithful to the C++ abstract machine",
                  "default floating-point environment (round-to-nearest-even); -ffp-contract=off, no -ffast-math",
-                 "glibc libm is only used to label the argument class of fma triples (product exact / inexact), never as oracle"],
+                 "glibc libm is only used to label argument classes (fma product exact/inexact) and to decide whether the exact result "
+                 "raises a floating-point exception; it is never the oracle for a compared value"],
 )
